@@ -37,6 +37,22 @@ type c02Step struct {
 
 type c02Case struct {
 	Steps []c02Step `json:"steps"`
+	// clustering.replication.max.bytes of the three servers (0 = default): a
+	// small value makes a follower catch up in several fetches
+	MaxRepl int64 `json:"maxrepl,omitempty"`
+}
+
+// c02Parked is a committed reader (what a subscription on a replica reads from)
+// that stays blocked in ReadMessage on a follower's log while the follower
+// replicates.
+type c02Parked struct {
+	node   string
+	part   *partition
+	mu     sync.Mutex
+	offs   []int64
+	vals   []string
+	err    error
+	cancel func()
 }
 
 func genC02(t *rapid.T) c02Case {
@@ -222,6 +238,7 @@ type c02Entry struct {
 }
 
 type c02World struct {
+	maxRepl int64
 	ns     *gnatsd.Server
 	name   string
 	nsName string
@@ -238,7 +255,12 @@ var (
 )
 
 func (w *c02World) start(n *c02Node) error {
-	s, err := vfL1(n.dir, n.id, w.ns, func(c *Config) { c.Clustering.Namespace = w.nsName })
+	s, err := vfL1(n.dir, n.id, w.ns, func(c *Config) {
+		c.Clustering.Namespace = w.nsName
+		if w.maxRepl > 0 {
+			c.Clustering.ReplicationMaxBytes = w.maxRepl
+		}
+	})
 	if err != nil {
 		return err
 	}
@@ -323,7 +345,13 @@ func runC02(c c02Case, o *vfutil.Obs) *vfutil.Failure {
 	// would otherwise panic the process
 	_ = root
 	c02Seq++
-	w := &c02World{ns: c02NS, name: fmt.Sprintf("rep%d", c02Seq), nsName: fmt.Sprintf("c02n%d", c02Seq), nodes: map[string]*c02Node{}}
+	w := &c02World{ns: c02NS, name: fmt.Sprintf("rep%d", c02Seq), nsName: fmt.Sprintf("c02n%d", c02Seq), nodes: map[string]*c02Node{}, maxRepl: c.MaxRepl}
+	var parked []*c02Parked
+	defer func() {
+		for _, r := range parked {
+			r.cancel()
+		}
+	}()
 	ids := []string{"a", "b", "c"}
 	for _, id := range ids {
 		n := &c02Node{id: id, dir: filepath.Join(root, id)}
@@ -611,6 +639,38 @@ func runC02(c c02Case, o *vfutil.Obs) *vfutil.Failure {
 				heldBy[leader] = true
 				w.hist = append(w.hist, "hold")
 			}
+		case "park":
+			// a committed reader on a replica's log, from the oldest offset, that
+			// keeps reading (and blocks at the replica's HW) from now on
+			n := pickNode(st.X)
+			p := w.part(n)
+			if !n.up || p == nil {
+				continue
+			}
+			rd, err := p.log.NewReader(0, false)
+			if err != nil {
+				return vfutil.Failf("C03/reader-open-error", "step %d, history %v: committed reader on %s: %v", step, w.hist, n.id, err)
+			}
+			ctx, cancel := context.WithCancel(context.Background())
+			pr := &c02Parked{node: n.id, part: p, cancel: cancel}
+			parked = append(parked, pr)
+			go func() {
+				hb := make([]byte, 28)
+				for {
+					m, off, _, _, err := rd.ReadMessage(ctx, hb)
+					pr.mu.Lock()
+					if err != nil {
+						pr.err = err
+						pr.mu.Unlock()
+						return
+					}
+					pr.offs = append(pr.offs, off)
+					pr.vals = append(pr.vals, string(m.Value()))
+					pr.mu.Unlock()
+				}
+			}()
+			w.hist = append(w.hist, "park("+n.id+")")
+			o.Label("committed-reader-parked-on-a-replica")
 		case "lag":
 			// the server stops applying metadata operations: it keeps its view of
 			// who leads (a leader that does not learn it has been replaced)
@@ -878,6 +938,51 @@ func runC02(c c02Case, o *vfutil.Obs) *vfutil.Failure {
 	if f := check(len(c.Steps)); f != nil {
 		return f
 	}
+	// committed readers parked on replicas: whatever the replica's HW covers by
+	// now must have reached them, once each and in order (only readers whose
+	// server was not restarted: a restart closes the log under them)
+	for _, pr := range parked {
+		n := w.nodes[pr.node]
+		if !n.up || w.part(n) != pr.part {
+			continue
+		}
+		want, _ := c02ReadLog(pr.part)
+		hw := pr.part.log.HighWatermark()
+		k := 0
+		for _, e := range want {
+			if e.Off <= hw {
+				k++
+			}
+		}
+		deadline := time.Now().Add(20 * time.Second)
+		for {
+			pr.mu.Lock()
+			got, err := len(pr.offs), pr.err
+			pr.mu.Unlock()
+			if got >= k || err != nil || time.Now().After(deadline) {
+				break
+			}
+			time.Sleep(time.Millisecond)
+		}
+		pr.mu.Lock()
+		offs, vals, err := append([]int64{}, pr.offs...), append([]string{}, pr.vals...), pr.err
+		pr.mu.Unlock()
+		if err != nil {
+			return vfutil.Failf("C03/replica-reader/error", "history %v: the committed reader parked on %s ended with %v after offsets %v (the replica's HW is %d, its log ends at %d)", w.hist, pr.node, err, offs, hw, pr.part.log.NewestOffset())
+		}
+		if len(offs) < k {
+			return vfutil.Failf("C03/replica-reader/committed-message-not-delivered/bounded-liveness(20s)", "history %v: the committed reader parked on %s delivered offsets %v, the replica's HW %d covers %d messages", w.hist, pr.node, offs, hw, k)
+		}
+		for i := range offs {
+			if i >= len(want) || offs[i] != want[i].Off || vals[i] != want[i].Val {
+				return vfutil.Failf("C03/replica-reader/delivered-wrong", "history %v: the committed reader parked on %s delivered %v %v, the replica's log holds %v", w.hist, pr.node, offs, vals, want)
+			}
+			if offs[i] > hw {
+				return vfutil.Failf("C03/replica-reader/above-hw", "history %v: the committed reader parked on %s delivered offset %d above the replica's HW %d", w.hist, pr.node, offs[i], hw)
+			}
+		}
+		o.Label("replica-reader-checked")
+	}
 	if os.Getenv("VERIF_HIST") != "" {
 		fmt.Println("history:", w.hist)
 	}
@@ -907,4 +1012,47 @@ func TestVerifC02(t *testing.T) {
 		}
 	}()
 	vfutil.Run(t, vfutil.Spec[c02Case]{ID: "C02", Gen: genC02, Run: runC02, Journal: true})
+}
+
+
+// C03c: a subscription served by a replica. A follower that is out of the ISR
+// catches up in several small fetches while a committed reader is blocked at its
+// HW: the leader's HW, which every fetch response carries, is ahead of what the
+// follower holds. Runs on the C02 world; failures of the reader are reported
+// for C03.
+func genC03c(t *rapid.T) c02Case {
+	c := c02Case{MaxRepl: int64(rapid.SampledFrom([]int{150, 300, 600}).Draw(t, "maxrepl"))}
+	x := rapid.IntRange(1, 2).Draw(t, "x")
+	c.Steps = []c02Step{
+		{Op: "publish", N: rapid.IntRange(1, 3).Draw(t, "n0"), Policy: 2}, {Op: "settle"},
+		{Op: "hold"}, {Op: "shrink", X: 1}, {Op: "shrink", X: 2}, // the leader alone is in sync
+		{Op: "park", X: x},
+	}
+	if rapid.Bool().Draw(t, "both") {
+		c.Steps = append(c.Steps, c02Step{Op: "park", X: 3 - x})
+	}
+	c.Steps = append(c.Steps,
+		c02Step{Op: "publish", N: rapid.IntRange(4, 14).Draw(t, "n1"), Policy: 2}, // committed by the leader alone
+		c02Step{Op: "release"}, c02Step{Op: "settle"})
+	if rapid.Bool().Draw(t, "more") {
+		c.Steps = append(c.Steps, c02Step{Op: "publish", N: rapid.IntRange(1, 4).Draw(t, "n2"), Policy: 2}, c02Step{Op: "settle"})
+	}
+	return c
+}
+
+func runC03c(c c02Case, o *vfutil.Obs) *vfutil.Failure {
+	f := runC02(c, o)
+	if f == nil {
+		o.NonTrivial()
+	}
+	return f
+}
+
+func TestVerifC03c(t *testing.T) {
+	defer func() {
+		if c02NS != nil {
+			c02NS.Shutdown()
+		}
+	}()
+	vfutil.Run(t, vfutil.Spec[c02Case]{ID: "C03", Gen: genC03c, Run: runC03c, Journal: true})
 }
